@@ -95,6 +95,26 @@ def run(tier, v):
         v.subspace("%s: sticky faults" % sc.name, len(plans))
         if len(v.coverage["samples"]) < 4:
             v.sample({"scenario": sc.name, "update_ops": ["%d:%s %s" % (o.k, o.op, o.path) for o in base.trace if is_update_op(o)]})
+    # faults on the lock file's own operations: a lock that cannot be written is only warned about - but whatever the run then does to the
+    # source files, it must not leave one without its update and still report success (the oracle is outcome-based)
+    def is_lock_op(o):
+        return o.cls in ("w", "x") and o.op in ("creat", "openw", "write", "rename", "unlink", "fsync") and (
+            o.path.startswith("$R0/Breadlog.lock") or o.path2.startswith("$R0/Breadlog.lock"))
+    for n in ["S2", "S3", "S10"] + (["S6", "S11"] if tier == "thorough" else []):
+        sc = scenarios.ALL[n]()
+        sc.name += "+lock-faults"
+        base, nx, capped = ex.explore(sc, {"fail", "short"}, 2 if tier == "thorough" else 1, oracle, opt=opt, op_filter=lambda o, d, x: is_lock_op(o))
+        v.subspace("%s: fail/short on every create / write / rename of Breadlog.lock and its scratch file" % sc.name, nx, exhaustive=not capped)
+    # a directory in the place of the lock scratch file: every attempt to write the lock fails, for real
+    for n in ["S2", "S3"]:
+        sc = scenarios.ALL[n]()
+        sc.name += "+lock-scratch-is-a-directory"
+        sc.raw_files = dict(sc.raw_files, **{"Breadlog.lock.tmp/keep": "x"})
+        x = fsx.execute((sc, [], opt))
+        ex._account(x)
+        b = ex.baseline(scenarios.ALL[n](), opt)
+        oracle(sc, b, x)
+    v.subspace("S2, S3 with a directory named Breadlog.lock.tmp (the lock can never be written)", 2)
     # the temp directory on another file system as an environment (every rename out of TMPDIR fails with EXDEV), single faults on top
     for n in ["S1", "S2"]:
         sc = scenarios.ALL[n]()
